@@ -157,6 +157,9 @@ func (r *Repr) sortOf(t types.Type) *Sort {
 	if s := abstractSort(t); s != nil {
 		return s
 	}
+	if _, ok := t.Underlying().(*types.Interface); ok && !isErrorTypeV(t) {
+		return UnS(absSortNameV(t))
+	}
 	if b, ok := basicOf(t); ok {
 		if b.Info()&types.IsBoolean != 0 {
 			return BoolS
@@ -228,4 +231,25 @@ func constToBig(v constant.Value) (*big.Int, bool) {
 	}
 	b, ok := new(big.Int).SetString(v.ExactString(), 10)
 	return b, ok
+}
+
+func isErrorTypeV(t types.Type) bool {
+	return types.Identical(t, types.Universe.Lookup("error").Type())
+}
+
+func absSortNameV(t types.Type) string {
+	s := types.TypeString(t, func(p *types.Package) string { return p.Name() })
+	r := []rune{}
+	for _, c := range s {
+		switch {
+		case c == '*':
+			r = append(r, []rune("Ptr_")...)
+		case c == '.' || c == '[' || c == ']' || c == '/':
+			r = append(r, '_')
+		case c == ' ' || c == '{' || c == '}':
+		default:
+			r = append(r, c)
+		}
+	}
+	return "S_" + string(r)
 }
